@@ -745,6 +745,163 @@ def ev_dyadic(facts):
     return dict((k, tuple(v)) for k, v in res.items()), n
 
 
+# ---------------------------------------------------------------- Scalar4 as the ring Z[omega][1/2], evaluated on a finite domain (round 2)
+
+def _s4_interp(facts):
+    from .. import circsem as cs
+    it = cs.interp(facts, 600000)
+    it.inline = lambda c: c.startswith(('scalar::', '<scalar::', '<&scalar::', 'scalar_traits::'))
+    it.copy_types = {DY, S4}
+    base = it.host_call
+
+    def hc(c, e, args):
+        t = (e.get('ty') or '')
+        if c.rsplit('::', 1)[-1] in ('from', 'into') and len(e['args']) == 1 and t == DY:
+            a = args()
+            if isinstance(a[0], int) and not isinstance(a[0], bool):
+                return it.local_call(DY + '::new', [a[0], 0])
+            if isinstance(a[0], float):
+                raise minirust.NoEval('float coefficient')
+        return base(c, e, args)
+    it.host_call = hc
+    hm0 = it.host_method
+
+    def hm(callee, nm, recv, args):
+        from .. import circsem as cs2
+        if isinstance(recv, cs2.Ph) and nm in ('numer', 'denom'):
+            return recv.v.numerator if nm == 'numer' else recv.v.denominator
+        if nm == 'rem_euclid' and isinstance(recv, int) and not isinstance(recv, bool):
+            a = args()
+            return recv % a[0]
+        return hm0(callee, nm, recv, args)
+    it.host_method = hm
+    return it
+
+
+def _s4_call(facts, key, args):
+    return _s4_interp(facts).local_call(key, args)
+
+
+def _s4_value(s):
+    if not (isinstance(s, dict) and s.get('__struct__') == S4 and isinstance(s.get('0'), list) and len(s['0']) == 4):
+        raise minirust.NoEval('not a Scalar4: %r' % (s,))
+    for d in s['0']:
+        if not _dy_wellformed(d):
+            raise minirust.NoEval('coefficient not normalised: %r' % (d,))
+    return tuple(_dy_value(d) for d in s['0'])
+
+
+def _s4_mul(a, b):
+    out = [0, 0, 0, 0]
+    for i in range(4):
+        for j in range(4):
+            k = (i + j) % 8
+            if k < 4:
+                out[k] += a[i] * b[j]
+            else:
+                out[k - 4] -= a[i] * b[j]
+    return tuple(out)
+
+
+def _s4_sqrt2_pow(p):
+    from fractions import Fraction as Fr
+    if p % 2 == 0:
+        return (Fr(2) ** (p // 2), 0, 0, 0)
+    h = Fr(2) ** ((p - 1) // 2)
+    return (0, h, 0, -h)
+
+
+def _s4_omega_pow(k):
+    k %= 8
+    out = [0, 0, 0, 0]
+    out[k % 4] = 1 if k < 4 else -1
+    return tuple(out)
+
+
+def ev_scalar4(facts):
+    """Scalar4 against the exact ring Z[omega][1/2] on a domain of small scalars: the reference operator impls, conj, zero / one tests, sqrt2 powers,
+    phases k*pi/4 and the exact phase-and-sqrt2-power recognition.  -> ({clause: (ok, counterexample)}, evaluations)"""
+    from fractions import Fraction as Fr
+    from .. import circsem as cs
+    res = dict((k, [True, '']) for k in ('add', 'sub', 'mul', 'conj', 'zero-one-tests', 'sqrt2-pow', 'from-phase', 'exact-phase-and-sqrt2-pow', 'exact-stays-exact'))
+    n = 0
+
+    def fail(k, msg):
+        if res[k][0]:
+            res[k] = [False, msg]
+
+    def mk(coeffs):
+        return {'__struct__': S4, '0': [_dy_call(facts, DY + '::new', [v, e]) for v, e in coeffs]}
+    dom_c = [[(0, 0)] * 4, [(1, 0), (0, 0), (0, 0), (0, 0)], [(-1, 0), (0, 0), (0, 0), (0, 0)], [(0, 0), (1, 0), (0, 0), (0, 0)], [(0, 0), (0, 0), (1, 0), (0, 0)],
+             [(0, 0), (0, 0), (0, 0), (-1, 0)], [(1, 0), (1, 0), (0, 0), (0, 0)], [(1, 0), (0, 0), (1, 0), (0, 0)], [(0, 0), (1, 0), (0, 0), (-1, 0)], [(1, -1), (0, 0), (0, 0), (0, 0)],
+             [(3, 0), (0, 0), (-1, 0), (0, 0)], [(1, -2), (1, -2), (1, -2), (1, -2)], [(5, -3), (-3, 1), (0, 0), (7, 0)], [(0, 0), (1, 2), (0, 0), (1, 2)]]
+    dom = [mk(c) for c in dom_c]
+    vals = [_s4_value(s) for s in dom]
+
+    def show(v):
+        return '(%s)' % ', '.join(str(x) for x in v)
+    keys = {'add': '<&%s as std::ops::Add<&%s>>::add' % (S4, S4), 'sub': '<&%s as std::ops::Sub<&%s>>::sub' % (S4, S4), 'mul': '<&%s as std::ops::Mul<&%s>>::mul' % (S4, S4)}
+    for a, va in zip(dom, vals):
+        r = _s4_call(facts, S4 + '::conj', [a])
+        n += 1
+        if _s4_value(r) != (va[0], -va[3], -va[2], -va[1]):
+            fail('conj', 'conj%s = %s' % (show(va), show(_s4_value(r))))
+        z = _s4_call(facts, '<%s as num::Zero>::is_zero' % S4, [a])
+        o = _s4_call(facts, '<%s as num::One>::is_one' % S4, [a])
+        n += 2
+        if z != (va == (0, 0, 0, 0)) or o != (va == (1, 0, 0, 0)):
+            fail('zero-one-tests', 'is_zero%s = %s, is_one = %s' % (show(va), z, o))
+        for b, vb in zip(dom, vals):
+            for name, key in keys.items():
+                if key not in facts['fns']:
+                    raise minirust.NoEval('no reference impl %s' % key)
+                r = _s4_call(facts, key, [a, b])
+                n += 1
+                want = tuple(x + y for x, y in zip(va, vb)) if name == 'add' else tuple(x - y for x, y in zip(va, vb)) if name == 'sub' else _s4_mul(va, vb)
+                got = _s4_value(r)
+                if got != want:
+                    fail(name, '%s %s %s = %s, exactly %s' % (show(va), {'add': '+', 'sub': '-', 'mul': '*'}[name], show(vb), show(got), show(want)))
+                if any(d['flags'] & 2 for d in r['0']):
+                    fail('exact-stays-exact', '%s %s %s of exact scalars with small coefficients is flagged approximate' % (show(va), name, show(vb)))
+    for p in range(-7, 8):
+        r = _s4_call(facts, '<%s as scalar_traits::Sqrt2>::sqrt2_pow' % S4, [p])
+        n += 1
+        if _s4_value(r) != tuple(Fr(x) for x in _s4_sqrt2_pow(p)):
+            fail('sqrt2-pow', 'sqrt2_pow(%d) = %s' % (p, show(_s4_value(r))))
+    fpk = '<%s as std::convert::From<phase::Phase>>::from' % S4
+    for k in range(-8, 9):
+        r = _s4_call(facts, fpk, [cs.Ph(Fr(k, 4))])
+        n += 1
+        if _s4_value(r) != tuple(Fr(x) for x in _s4_omega_pow(k)):
+            fail('from-phase', 'the scalar of the phase %s is %s, e^(i pi %s) is %s' % (Fr(k, 4), show(_s4_value(r)), Fr(k, 4), show(_s4_omega_pow(k))))
+    # recognition: every sqrt2^p * omega^k is recognised with that (phase, power); the other scalars of the domain are not
+    ek = S4 + '::exact_phase_and_sqrt2_pow'
+    forms = {}
+    for p in range(-6, 7):
+        for k in range(8):
+            v = _s4_mul(tuple(Fr(x) for x in _s4_sqrt2_pow(p)), _s4_omega_pow(k))
+            forms[v] = (Fr(k, 4) % 2, p)
+            sp = _s4_call(facts, '<%s as scalar_traits::Sqrt2>::sqrt2_pow' % S4, [p])
+            ph = _s4_call(facts, fpk, [cs.Ph(Fr(k, 4))])
+            sc = _s4_call(facts, keys['mul'], [sp, ph])
+            r = _s4_call(facts, ek, [sc])
+            n += 4
+            ok = isinstance(r, tuple) and r[0] == 'Some' and isinstance(r[1], tuple) and isinstance(r[1][0], cs.Ph) and (r[1][0].v, r[1][1]) == (Fr(k, 4) % 2, p)
+            if not ok:
+                fail('exact-phase-and-sqrt2-pow', 'sqrt2^%d * e^(i pi %s) is recognised as %s' % (p, Fr(k, 4), r))
+    for a, va in zip(dom, vals):
+        r = _s4_call(facts, ek, [a])
+        n += 1
+        want = forms.get(va)
+        if want is None:
+            ok = r == minirust.NONE
+        else:
+            ok = isinstance(r, tuple) and r[0] == 'Some' and isinstance(r[1][0], cs.Ph) and (r[1][0].v, r[1][1]) == want
+        if not ok:
+            fail('exact-phase-and-sqrt2-pow', '%s is recognised as %s, expected %s' % (show(va), r, want))
+    return dict((k, tuple(v)) for k, v in res.items()), n
+
+
 MUL_REF = {(i, j): ((i + j) % 4, -1 if (i + j) >= 4 else 1) for i in range(4) for j in range(4)}
 
 
@@ -865,7 +1022,7 @@ def _run_own(ck):
                'D3 no u64->i64 cast of a full-width mantissa on the call path from a Scalar4/Dyadic to f64/Complex<f64>',
                'D4 representation invariant: Dyadic literals only in dyadic.rs, all-zero or normalised before use; fields private; Scalar4 array built only in scalar.rs',
                'D5 operator consistency (Dyadic 7 + Scalar4 20 impls incl. Sum/Product) and literal tables by value: conj, the Z[omega] product index/sign table, From<Phase> unit placement and its denominator guard, sqrt2_pow, both TryFrom<..> for Complex')
-    ck.not_decided('Dyadic values outside the boundary domain (the structural rules cover all paths)', 'accuracy to 1e-12 of the float conversion', 'float round-trip', 'exact_phase_and_sqrt2_pow recognition')
+    ck.not_decided('Dyadic values outside the boundary domain (the structural rules cover all paths)', 'accuracy to 1e-12 of the float conversion', 'float round-trip', 'Scalar4 values outside the evaluated domain of small exact scalars')
     # ---- D0 (round 2): Dyadic arithmetic and order, evaluated on a boundary-rich finite domain against exact rationals
     try:
         sem, nev = ev_dyadic(facts)
@@ -884,6 +1041,20 @@ def _run_own(ck):
         ck.ob('E3-dyadic', 'no-panic', False, ck.site(ADD), 'some pair of boundary values makes the arithmetic panic (overflow checks are on in debug builds): %s' % ex)
     except (minirust.NoEval, minirust.Proceed, TypeError, KeyError, IndexError, AttributeError, ValueError) as ex:
         ck.ob3('E3-dyadic', 'evaluable', None, ck.site(ADD), 'the Dyadic arithmetic is not evaluable by the interpreter (%s): the value-level clauses are not decided (the structural rules below still are)' % ex)
+    try:
+        sem, nev = ev_scalar4(facts)
+        msgs = {'add': 'the reference Add impl is the sum in Z[omega][1/2]', 'sub': 'the reference Sub impl is the difference', 'mul': 'the reference Mul impl is the product with omega^4 = -1',
+                'conj': 'conj is complex conjugation', 'zero-one-tests': 'is_zero / is_one agree with the value', 'sqrt2-pow': 'sqrt2_pow(p) is sqrt(2)^p',
+                'from-phase': 'the scalar of a phase k*pi/4 is omega^k', 'exact-phase-and-sqrt2-pow': 'exactly the scalars sqrt2^p * omega^k are recognised, with that phase and power',
+                'exact-stays-exact': 'exact operands with small coefficients give exact results'}
+        for name, (ok, cex) in sorted(sem.items()):
+            ck.ob('E3-scalar4', name, ok, ck.site(S4 + '::exact_phase_and_sqrt2_pow') if name.startswith('exact-phase') else 'quizx/src/scalar.rs', '%s: %s' % (msgs[name], cex), sample={'evaluations': nev})
+        ck.floor('E3-scalar4-evaluations', nev, 1000)
+        ck.note('Scalar4: %d evaluations against the exact ring Z[omega][1/2]' % nev)
+    except minirust.Panics as ex:
+        ck.ob('E3-scalar4', 'no-panic', False, 'quizx/src/scalar.rs', 'some small exact scalar makes the arithmetic panic: %s' % ex)
+    except (minirust.NoEval, minirust.Proceed, TypeError, KeyError, IndexError, AttributeError, ValueError) as ex:
+        ck.ob3('E3-scalar4', 'evaluable', None, 'quizx/src/scalar.rs', 'the Scalar4 arithmetic is not evaluable by the interpreter (%s): the ring-level clauses are not decided (the table rules below still are)' % ex)
     # ---- D2 order
     f = ck.fn(CMP)
     res = d2_order(f)
